@@ -889,6 +889,63 @@ func c14ChildRace() {
 	fmt.Println("DONE")
 }
 
+// OpenStream racing the death of the session.  OpenStream checks IsClosed first and registers the
+// stream under streamLock later; the cleanup posted by Close drops the stream table under the same
+// lock.  Many goroutines on few Ps loop in OpenStream (most of an iteration lies between the check and
+// the lock, so a descheduled goroutine is usually parked inside that window) while the connection is
+// severed: the dispatcher closes the session and runs the cleanup within microseconds.
+func c14ChildOpenRace() {
+	runtime.GOMAXPROCS(2)
+	rounds := venvInt("VERIF_C14_ROUNDS", 8)
+	var opened, failed int64
+	for r := 0; r < rounds; r++ {
+		id := 9700 + r
+		cs, ss, err := c14Sessions(id, "o", c14Conf(c14Prefix(id), c14Prefix(id)+"_queue", MemMapType(r%2)))
+		if err != nil {
+			fmt.Println("ERR " + err.Error())
+			return
+		}
+		var wg sync.WaitGroup
+		for g := 0; g < 48; g++ {
+			wg.Add(1)
+			go func() {
+				defer wg.Done()
+				for {
+					st, err := cs.OpenStream()
+					if err != nil {
+						atomic.AddInt64(&failed, 1)
+						if c14ErrClass(err) == "nil" {
+							fmt.Println("BADERR nil error without a stream")
+						}
+						return
+					}
+					_ = st
+					atomic.AddInt64(&opened, 1)
+				}
+			}()
+		}
+		time.Sleep(time.Duration(5+3*r) * time.Millisecond)
+		if r%2 == 0 {
+			syscall.Shutdown(ss.connFd, syscall.SHUT_RDWR) // peer death as the dispatcher sees it
+		} else {
+			cs.Close()
+		}
+		done := make(chan struct{})
+		go func() { wg.Wait(); close(done) }()
+		select {
+		case <-done:
+		case <-time.After(15 * time.Second):
+			fmt.Println("HANG OpenStream loops did not stop after the session closed")
+		}
+		time.Sleep(1500 * time.Millisecond)
+		ss.Close()
+		cs.Close()
+		time.Sleep(1200 * time.Millisecond)
+	}
+	fmt.Printf("STATS opened=%d failed=%d\n", opened, failed)
+	fmt.Println("DONE")
+}
+
 func c14ChildLater() {
 	id := 9500
 	cs, ss, err := c14Sessions(id, "l", c14Conf(c14Prefix(id), c14Prefix(id)+"_queue", MemMapTypeDevShmFile))
@@ -925,6 +982,8 @@ func c14RunChild(id int, mode, name string, crashSig, notFailSig string) c14Case
 	if crashed {
 		what := "exit"
 		switch {
+		case strings.Contains(out, "assignment to entry in nil map"):
+			what = "nil-map-assignment"
 		case strings.Contains(out, "SIGSEGV"), strings.Contains(out, "unexpected fault address"):
 			what = "sigsegv"
 		case strings.Contains(out, "nil pointer dereference"):
@@ -933,6 +992,9 @@ func c14RunChild(id int, mode, name string, crashSig, notFailSig string) c14Case
 			what = "panic"
 		}
 		c.Feat = append(c.Feat, "child-crashed-"+what)
+		if what == "nil-map-assignment" {
+			crashSig = "C14:openstream-racing-close-panics-on-nil-stream-map"
+		}
 		c.Oracle = append(c.Oracle, crashSig)
 	}
 	if strings.Contains(out, "HANG") {
@@ -1030,6 +1092,10 @@ func TestVerif_C14(t *testing.T) {
 		c14Scratch = os.TempDir()
 		c14ChildLater()
 		return
+	case "openrace":
+		c14Scratch = os.TempDir()
+		c14ChildOpenRace()
+		return
 	}
 	out := vopenOut(t)
 	defer out.close()
@@ -1090,6 +1156,10 @@ func TestVerif_C14(t *testing.T) {
 				return c14Isolated(i7, "severed", fmt.Sprintf("severed-mid-read-and-flush-mt%d", mt), 0, true, true, mt, 0)
 			})
 		}
+		io := next()
+		run(func() c14Case {
+			return c14RunChild(io, "openrace", "openstream-racing-close", "C14:unmap-while-user-thread-inside-flush", "")
+		})
 		ir, il := next(), next()
 		run(func() c14Case {
 			return c14RunChild(ir, "race", "close-racing-flush", "C14:unmap-while-user-thread-inside-flush", "")
